@@ -22,4 +22,4 @@ package strategy
 //@   let iv = params.SlowStartIntervalDuration.Duration
 //@   ensures [C09] ramp-formula: result1 == nil && t >= 0 && iv > 0 ==> result == min(*params.MaxParallelPodCreation, (1 + t / iv) * fst(inc))
 //@   ensures [C09] never-above-max-parallel: result1 == nil ==> result <= *params.MaxParallelPodCreation
-//@   ensures error-iff-bad-increase: result1 != nil <==> snd(inc) != nil
+//@   ensures error-iff-bad-configuration: result1 != nil <==> snd(inc) != nil || iv <= 0
